@@ -1,16 +1,26 @@
 #!/bin/bash
-# usage: confirm_seed.sh <Cxx> <n>   (n = "" or 2): confirms /tmp/seed/out-Cxx/patch<n>.diff + demo<n>.rs in worktree /tmp/seed/wt-Cxx
+# usage: confirm_seed.sh <round> <Cxx> <n>   (n = "" or 2): confirms /tmp/seed/out-r4-Cxx/patch<n>.diff + demo<n>.rs in worktree /tmp/seed/wt-r4-Cxx
 # prints: SUITE_WITH_PATCH=<pass|fail> DEMO_WITHOUT=<pass|fail> DEMO_WITH=<pass|fail>
-id=$1; n=$2
-wt=/tmp/seed/wt-$id; out=/tmp/seed/out-$id
+rnd=$1; id=$2; n=$3
+wt=/tmp/seed/wt-$rnd-$id; out=/tmp/seed/out-$rnd-$id
 export CARGO_TARGET_DIR=$wt/target CARGO_NET_OFFLINE=true
 cd $wt || exit 2
-git checkout -q -- . ; rm -f sylvia/tests/seeded_demo$n.rs
+git checkout -q -- . ; rm -f sylvia/tests/seeded_demo*.rs
+[ -f $out/patch$n.diff ] || { echo "$id patch$n: no patch"; exit 0; }
 cp $out/demo$n.rs sylvia/tests/seeded_demo$n.rs
-cargo test -p sylvia --features mt --test seeded_demo$n --offline > $out/confirm_demo${n}_without.log 2>&1 && dw=pass || dw=fail
+sel="-p sylvia --features mt"
+cargo test $sel --test seeded_demo$n --offline > $out/confirm_demo${n}_without.log 2>&1 && dw=pass || dw=fail
+if [ $dw = fail ]; then   # some demonstrations need the feature set of a workspace build
+  sel="--workspace"
+  cargo test $sel --test seeded_demo$n --offline > $out/confirm_demo${n}_without.log 2>&1 && dw=pass || dw=fail
+fi
+if [ $dw = fail ]; then
+  sel="-p sylvia"
+  cargo test $sel --test seeded_demo$n --offline > $out/confirm_demo${n}_without.log 2>&1 && dw=pass || dw=fail
+fi
 git apply $out/patch$n.diff || { echo "APPLY FAILED"; exit 2; }
-cargo test -p sylvia --features mt --test seeded_demo$n --offline > $out/confirm_demo${n}_with.log 2>&1 && dp=pass || dp=fail
+cargo test $sel --test seeded_demo$n --offline > $out/confirm_demo${n}_with.log 2>&1 && dp=pass || dp=fail
 rm -f sylvia/tests/seeded_demo$n.rs
 cargo test --workspace --no-fail-fast --offline > $out/confirm_suite${n}_with.log 2>&1 && sp=pass || sp=fail
 git checkout -q -- .
-echo "$id patch$n SUITE_WITH_PATCH=$sp DEMO_WITHOUT=$dw DEMO_WITH=$dp"
+echo "$rnd-$id patch$n SUITE_WITH_PATCH=$sp DEMO_WITHOUT=$dw DEMO_WITH=$dp"
